@@ -97,24 +97,11 @@ func InstanceLoadForm(obj Instance) (form List) {
 						Symbol(name),
 					},
 				},
-				slotLoadForm(iv),
+				dataLoadForm(iv),
 			},
 		)
 	}
 	form = append(form, Symbol("inst"))
 
 	return
-}
-
-// slotLoadForm returns the form for a slot value which is data and not code.
-// A symbol is quoted and a list, table, or instance is rebuilt by its own load
-// form. A value without a load form is left as is.
-func slotLoadForm(v Object) Object {
-	switch v.(type) {
-	case nil:
-		return nil
-	case Symbol, LoadFormer:
-		return dataLoadForm(v)
-	}
-	return v
 }
